@@ -33,6 +33,8 @@ func runC01(c *Ctx, pr *PropertyRun) {
 	c01Dispatch(c, pr, "C01")
 	c01Adapter(c, pr, "C01")
 	serveErrorTable(c, pr, "C01")
+	// PROPFIND reports what is stored: each listed resource gets its own property table
+	freshPropTableRule(c, pr, "C01")
 	// every name that denotes a resource is accepted (and only those): the
 	// sanitiser's table, shared with C03.sanitiser-shape
 	acc := NewRule("C01", "C01.path-acceptance", "decision table of localPath: success exactly for NUL-free names whose path.Clean form is absolute — no other name is refused (E2, shared with C03)")
@@ -131,7 +133,7 @@ func c01Structure(c *Ctx, pr *PropertyRun) {
 			if call, ok := site.(*ssa.Call); ok && call.Common().StaticCallee() == san {
 				sans = append(sans, call)
 			}
-			if destructiveCalls[calleeName(site.Common())] && firstDestructive == nil {
+			if destructiveCalls[fsPrimitiveName(p, site.Common())] && firstDestructive == nil {
 				firstDestructive = site
 			}
 		})
@@ -233,9 +235,25 @@ func httpServerModels(in *Interp, site ssa.CallInstruction, name string, args []
 		in.Trace = append(in.Trace, Effect{Name: "xml.Encode.value", Args: []Val{args[1]}, Pos: site.Pos()})
 		return kNil, true
 	case cc.IsInvoke() && cc.Method.Name() == "Read" && len(args) == 2:
-		// the request body: empty (EOF at once) or not
+		// the request body: empty (EOF at once) or not. A zero-length read
+		// reports the end of an empty body with some readers (http.NoBody)
+		// and nothing at all with others (http.MaxBytesReader: 0, nil)
+		eof := Iface{Dyn: types.Typ[types.Invalid], V: Opaque{"global:io.EOF", errorType}}
+		zeroLen := false
+		switch b := args[1].(type) {
+		case Konst:
+			zeroLen = b.V == nil
+		case Slice:
+			zeroLen = len(b.E) == 0
+		}
+		if zeroLen {
+			if in.truth(LazyBool{"body-empty"}) && in.truth(LazyBool{"zero-length-read-reports-eof"}) {
+				return Tuple{[]Val{kInt(0), eof}}, true
+			}
+			return Tuple{[]Val{kInt(0), kNil}}, true
+		}
 		if in.truth(LazyBool{"body-empty"}) {
-			return Tuple{[]Val{kInt(0), Iface{Dyn: types.Typ[types.Invalid], V: Opaque{"global:io.EOF", errorType}}}}, true
+			return Tuple{[]Val{kInt(0), eof}}, true
 		}
 		return Tuple{[]Val{kInt(1), kNil}}, true
 	case name == "net/url.Parse":
@@ -407,12 +425,12 @@ func c01Dispatch(c *Ctx, pr *PropertyRun, prop string) {
 				if !env.Bool("fails:" + ct) {
 					isXML = env.Eq(S(ct), K("application/xml")) || env.Eq(S(ct), K("text/xml"))
 				}
-				if isXML {
-					if env.Bool("fails:xml.Decode") {
+				// an empty body is an allprop request whatever its content
+				// type says (RFC 4918 §9.1); anything else must be XML
+				if !env.Bool("body-empty") {
+					if !isXML || env.Bool("fails:xml.Decode") {
 						return []string{" -> 400"}, true
 					}
-				} else if !env.Bool("body-empty") {
-					return []string{" -> 400"}, true
 				}
 				depth := "-1"
 				d := hdr("Depth")
